@@ -304,7 +304,7 @@ fn handwritten() -> Vec<(&'static str, String)> {
 pub fn bounds(tier: Tier) -> Value {
     match tier {
         Tier::Quick => json!({"handwritten_programs": 30, "generated_block_programs": "1-2 blocks, 3 answer tapes", "horizon_command_entries": 20, "setters": ["command itself", "second thread"]}),
-        Tier::Thorough => json!({"handwritten_programs": 30, "generated_block_programs": "1-3 blocks, 4 answer tapes", "horizon_command_entries": 40, "setters": ["command itself", "second thread"]}),
+        Tier::Thorough => json!({"handwritten_programs": 30, "generated_block_programs": "1-3 blocks (all forests), 4 answer tapes", "horizon_command_entries": 60, "setters": ["command itself", "second thread"]}),
     }
 }
 
@@ -433,7 +433,7 @@ pub fn worker(w: &mut Worker) {
     let tier = w.tier;
     w.set_case_limit_ms(30_000);
     let rig = Rig::new();
-    let horizon = tier.pick(20usize, 40usize);
+    let horizon = tier.pick(20usize, 60usize);
     for (name, text) in handwritten() {
         if w.take() {
             check_program(w, &rig, name, &text, &[], horizon);
@@ -443,9 +443,6 @@ pub fn worker(w: &mut Worker) {
     let nmax = tier.pick(2usize, 3usize);
     for n in 1..=nmax {
         for (fi, forest) in forests(n, 3).into_iter().enumerate() {
-            if n == 3 && fi % 7 != 0 {
-                continue;
-            }
             let prog = build(&forest, 0, (fi % 4) as u8);
             let text = render(&prog, &mut Speller::rot(fi % 3));
             // tapes: everything true once / twice (loops run), arrays of length 2
